@@ -8,6 +8,7 @@ import (
 	"strings"
 	"time"
 
+	"github.com/vipnode/vipnode/v2/pool"
 	"github.com/vipnode/vipnode/v2/pool/balance"
 	"github.com/vipnode/vipnode/v2/pool/store"
 )
@@ -38,6 +39,9 @@ type POp struct {
 	NowS   int64    `json:"now_store,omitempty"`
 	NowB   int64    `json:"now_balance,omitempty"`
 	Charge string   `json:"charged,omitempty"`
+	Calls  []string `json:"store_calls,omitempty"`
+	opCoq  string
+	trace  []string
 }
 
 var (
@@ -107,7 +111,8 @@ func (w *world) applyPOp(o *POp) (coq string, mon []string) {
 		if o.Host {
 			uri = "enode://" + nodeIDOf(o.Node) + "@10.1.1.1:30303"
 		}
-		_, err := w.connect(o.Node, o.Host, o.Kind, o.Payout, uri)
+		var err error
+		o.trace = w.traced(func() { _, err = w.connect(o.Node, o.Host, o.Kind, o.Payout, uri) })
 		e := classify(err)
 		nd, gerr := w.st.GetNode(store.NodeID(nodeIDOf(o.Node)))
 		if gerr != nil {
@@ -159,7 +164,9 @@ func (w *world) applyPOp(o *POp) (coq string, mon []string) {
 				balBefore[n] = new(big.Int).Set(&b.Credit)
 			}
 		}
-		resp, err := w.update(o.Node, o.Peers, o.Block)
+		var resp *pool.UpdateResponse
+		var err error
+		o.trace = w.traced(func() { resp, err = w.update(o.Node, o.Peers, o.Block) })
 		e := classify(err)
 		o.Result = e.Class
 		nowS := int64(0)
@@ -255,7 +262,8 @@ func (w *world) applyPOp(o *POp) (coq string, mon []string) {
 			mon = append(mon, fmt.Sprintf("c03-spurious-disconnect: hosts %v asked to disconnect without a cut-off", disc))
 		}
 	case "addnode":
-		err := w.addNode(o.Wallet, o.Node)
+		var err error
+		o.trace = w.traced(func() { err = w.addNode(o.Wallet, o.Node) })
 		e := classify(err)
 		o.Result = e.Class
 		opCoq = fmt.Sprintf("OAddNode %s %s", cN(w.t.id(o.Wallet)), cN(w.t.id(o.Node)))
@@ -275,7 +283,8 @@ func (w *world) applyPOp(o *POp) (coq string, mon []string) {
 		w.settleOK = o.Settle
 		nlog := len(w.settleLog)
 		w.mu.Unlock()
-		err := w.withdraw(o.Wallet)
+		var err error
+		o.trace = w.traced(func() { err = w.withdraw(o.Wallet) })
 		e := classify(err)
 		o.Result = e.Class
 		opCoq = fmt.Sprintf("OWithdraw %s %s", cN(w.t.id(o.Wallet)), cBool(o.Settle))
@@ -319,6 +328,7 @@ func (w *world) applyPOp(o *POp) (coq string, mon []string) {
 	if after.Cmp(want) != 0 {
 		mon = append(mon, fmt.Sprintf("c01-total-changed: %s of %s moved the ledger total from %s to %s (expected %s)", o.Op, o.Node+o.Wallet, before, after, want))
 	}
+	o.opCoq, o.Calls = opCoq, o.trace
 	return fmt.Sprintf("(%s, %s)", opCoq, obsCoq), mon
 }
 
